@@ -85,7 +85,7 @@ func startChild() *child {
 	if err != nil {
 		hx.Fatal("executable: %v", err)
 	}
-	cmd := exec.Command(self, "-child", "-work", *hx.Work)
+	cmd := hx.Supervised(exec.Command(self, "-child", "-work", *hx.Work))
 	cmd.Env = append(os.Environ(), "GOMEMLIMIT=1GiB", "GOMAXPROCS=2")
 	in, _ := cmd.StdinPipe()
 	out, _ := cmd.StdoutPipe()
